@@ -148,12 +148,23 @@ def topologies():
     s["storages"]["st0"] = {"data_replication_factor": (300, "percent"), "storage_capacity": (1000, "GB"), "base_storage_need": (2000, "GB"), "idle_power": (1, "W")}
     s["jobs"]["job0"].update({"data_transferred": (0.15, "MB"), "request_duration": (0.02, "min")})
     T["unusual_units"] = s
+    # user-defined sources: same name with different links, a source without link
+    s = base_spec()
+    s["servers"]["srv0"].update({"power": (280, "W", ("Internal measurement campaign", "https://example.org/2023")),
+                                 "idle_power": (40, "W", ("Internal measurement campaign", "https://example.org/2024")),
+                                 "ram": (64, "GB", ("Vendor datasheet", None))})
+    s["jobs"]["job0"].update({"data_transferred": (200, "kB", ("Vendor datasheet", "https://vendor-b.example.org"))})
+    T["custom_sources"] = s
     return T
 
 
 def Q(pair):
-    v, unit = pair
-    return SourceValue(v * u(unit)) if unit != "dimensionless" else SourceValue(v * u.dimensionless)
+    v, unit = pair[0], pair[1]
+    q = v * u(unit) if unit != "dimensionless" else v * u.dimensionless
+    if len(pair) > 2:
+        from efootprint.abstract_modeling_classes.explainable_object_base_class import Source
+        return SourceValue(q, Source(pair[2][0], pair[2][1]))
+    return SourceValue(q)
 
 
 def _dt(s):
@@ -413,7 +424,7 @@ def run_parallel(fn, items, procs=16):
 
 
 def build_services_system(video_resolution="720p (1280 x 720)", technology="php-symfony", provider="openai", model_name="gpt-3.5-turbo-1106",
-                          instance_type=None, cloud_provider=None, with_plain_job=True, values=(1000, 2000, 4000, 5000, 8000, 12000, 2000, 2000, 3000)):
+                          instance_type=None, cloud_provider=None, with_plain_job=True, gpu_count=64, values=(1000, 2000, 4000, 5000, 8000, 12000, 2000, 2000, 3000)):
     """one system containing every builder class (cloud server, GPU server, three services with their jobs)"""
     from efootprint.builders.hardware.boavizta_cloud_server import BoaviztaCloudServer
     from efootprint.core.hardware.gpu_server import GPUServer
@@ -428,7 +439,7 @@ def build_services_system(video_resolution="720p (1280 x 720)", technology="php-
     if cloud_provider: kw["provider"] = SourceObject(cloud_provider)
     o["cloud"] = BoaviztaCloudServer.from_defaults("cloud server", storage=o["cloud_st"], base_ram_consumption=SourceValue(1 * u.GB), **kw)
     o["gpu_st"] = Storage.ssd("gpu storage")
-    o["gpu"] = GPUServer.from_defaults("gpu server", storage=o["gpu_st"])
+    o["gpu"] = GPUServer.from_defaults("gpu server", storage=o["gpu_st"], compute=SourceValue(gpu_count * u.gpu))
     o["video"] = VideoStreaming.from_defaults("video service", server=o["cloud"])
     o["webapp"] = WebApplication("webapp service", o["cloud"], technology=SourceObject(technology))
     o["genai"] = GenAIModel.from_defaults("genai service", provider=SourceObject(provider), model_name=SourceObject(model_name), server=o["gpu"])
